@@ -147,8 +147,22 @@ impl<'a> World<'a> {
                                 // is a cause of its own (the rotation point of
                                 // MqttState::clean assumes publishes only) and comes first
                                 let subs = self.reqs.iter().any(|r| r.kind != ReqKind::Pub && (r.first_tx.is_some() || r.accepted));
+                                // the id of one of the two publishes was last held by a QoS 2
+                                // publish: its PUBCOMP freed the id outside the PUBACK order
+                                // the rotation point of MqttState::clean follows
+                                let after_qos2 = |x: usize| {
+                                    let (id, fx) = (self.reqs[x].wire_id, self.reqs[x].first_tx);
+                                    self.reqs
+                                        .iter()
+                                        .enumerate()
+                                        .filter(|(y, r)| *y != x && r.kind == ReqKind::Pub && id.is_some() && r.wire_id == id && r.first_tx < fx && r.first_tx.is_some())
+                                        .max_by_key(|(_, r)| r.first_tx)
+                                        .map_or(false, |(_, r)| r.qos == 2)
+                                };
                                 let feature = if subs {
                                     "ids_shared_with_subscribe"
+                                } else if after_qos2(ri) || after_qos2(lri) {
+                                    "id_freed_by_qos2_completion"
                                 } else if c.interrupted {
                                     "failure_during_replay"
                                 } else if self.conns.iter().skip(1).any(|c| c.connack_sent && !c.sp) {
